@@ -16,9 +16,9 @@ Main theorems:
 * `check_pin_trust_eq` (never raises; = `checkPinTrust` of the classified cookie), `classify_empty`;
 * `fail_pin_auth_eq`, `fail_pin_auth_counter`, `fail_pin_auth_range`, `fail_pin_auth_slept`;
 * `pin_auth_untrusted_host`, `pin_auth_eq`, `pin_auth_counter`, `pin_auth_no_pin`,
-  `pin_auth_missing_pin_arg`, `pin_auth_entered_unread`, `pin_auth_type_error_iff`, and the
+  `pin_auth_missing_pin_arg`, `pin_auth_entered_unread`, `pin_auth_attribute_error_iff`, and the
   composition with `check_pin_trust` (`pinRequest`): `pin_request_eq`,
-  `pin_request_untrusted_host`, `pin_request_no_type_error`;
+  `pin_request_untrusted_host`, `pin_request_no_attribute_error`;
 * `debugger_dispatch_eq` (= `handler` of the abstracted request), `respond_eq_handler` (`respond` =
   select the handler, then run its model), `handler_of_respond`, `respond_securityError_iff`,
   `handler_eq_{one,two,three,four,five}_iff`, `debugger_dispatch_model`, `debugger_dispatch_range`,
@@ -28,7 +28,7 @@ Main theorems:
 Nothing is weakened and nothing is left open; no discrepancy between translation and model was found
 (spot checks against the running `DebuggedApplication`: an empty cookie value gives `False`; a
 missing `pin` argument raises `BadRequestKeyError` - a `KeyError` - only on the comparison path and
-leaves the counter alone; `pin = None` authenticates without TypeError; `cmd=resource` with an empty
+leaves the counter alone; `pin = None` authenticates without AttributeError; `cmd=resource` with an empty
 or missing `f`, the right secret, a known frame and a valid cookie reaches `execute_command`).
 
 Helper lemmas that do not mention generated definitions and could move to a shared library:
@@ -179,7 +179,7 @@ def pinRight (text pin : Str) : Bool :=
   Pre.replace (Pre.strip text) ['-'] [] == Pre.replace pin ['-'] []
 
 /-- the same with the `self.pin` attribute (`None`: nothing matches; that path is unreachable, see
-`pin_request_no_type_error`) -/
+`pin_request_no_attribute_error`) -/
 def pinRightOpt (text : Str) : Option Str → Bool
   | some p => pinRight text p
   | none => false
@@ -276,11 +276,11 @@ theorem pin_auth_counter (trust : Option Bool) (text p : Str) (failed : Int) (s 
 other than `True` (which `check_pin_trust` never gives then, see `pin_request_eq`): as long as the
 PIN comparison is not reached (`trust` is not `False`, or the client is locked out) the answer is
 still the model's - the PIN is not looked at -; on the comparison path `pin.replace` is applied to
-`None`: TypeError, with the counter untouched. -/
+`None`: AttributeError, with the counter untouched. -/
 theorem pin_auth_no_pin (trust : Option Bool) (text : Str) (failed : Int) (s l : Bool)
     (h0 : 0 ≤ failed) (h1 : failed ≤ 255) :
     Gen.PyFns_Debug.pin_auth true trust (.ok text) none failed s l ()
-      = if trust = some false ∧ failed ≤ 10 then ((failed, s, l), .error "TypeError")
+      = if trust = some false ∧ failed ≤ 10 then ((failed, s, l), .error "AttributeError")
         else pinAuthSpec (trustOf trust) false failed s l := by
   have hf := fail_pin_auth_eq failed s l h0 h1
   have hb := byte_toNat failed h0 h1
@@ -337,13 +337,13 @@ theorem pin_auth_entered_unread (host_trusted : Bool) (trust : Option Bool)
         have h10 : failed > 10 := by simpa using h
         simp [h10]
 
-/-- Exactly when the translated `pin_auth` raises TypeError (given that the `pin` argument does not
+/-- Exactly when the translated `pin_auth` raises AttributeError (given that the `pin` argument does not
 itself carry that error text): the Host is trusted, the verdict is `False`, the client is not
 locked out, the argument is present, and no PIN is configured. For every counter value. -/
-theorem pin_auth_type_error_iff (host_trusted : Bool) (trust : Option Bool)
+theorem pin_auth_attribute_error_iff (host_trusted : Bool) (trust : Option Bool)
     (entered : Except String Str) (pin : Option Str) (failed : Int) (s l : Bool)
-    (hent : entered ≠ .error "TypeError") :
-    (Gen.PyFns_Debug.pin_auth host_trusted trust entered pin failed s l ()).2 = .error "TypeError"
+    (hent : entered ≠ .error "AttributeError") :
+    (Gen.PyFns_Debug.pin_auth host_trusted trust entered pin failed s l ()).2 = .error "AttributeError"
       ↔ host_trusted = true ∧ trust = some false ∧ failed ≤ 10 ∧ (∃ t, entered = .ok t) ∧ pin = none := by
   unfold Gen.PyFns_Debug.pin_auth
   cases host_trusted with
@@ -361,7 +361,7 @@ theorem pin_auth_type_error_iff (host_trusted : Bool) (trust : Option Bool)
         · have h10' : failed ≤ 10 := by omega
           cases entered with
           | error e =>
-            have : ¬ e = "TypeError" := fun h => hent (by rw [h])
+            have : ¬ e = "AttributeError" := fun h => hent (by rw [h])
             simp [h10, this]
           | ok t =>
             cases pin with
@@ -413,21 +413,21 @@ theorem pin_request_untrusted_host (hash_pin : Str → Str) (fresh : Int → Boo
   rw [check_pin_trust_eq]
   exact pin_auth_untrusted_host _ entered pin failed s l
 
-/-- **The TypeError arm of `pin_auth` is dead code**: the translation has to provide for
+/-- **The AttributeError arm of `pin_auth` is dead code**: the translation has to provide for
 `pin.replace("-", "")` on `self.pin = None` (`t.cast(str, self.pin)` is no check), but when the
 trust verdict comes from `check_pin_trust` on the same `self.pin` - as it does in the source - a
 missing PIN makes the verdict `True` and the PIN comparison is not reached. For every `hash_pin`,
 clock, cookie, Host verdict, `pin` argument (present or KeyError), PIN (or `None`), counter and
-flags, the composed handler never yields TypeError. -/
-theorem pin_request_no_type_error (hash_pin : Str → Str) (fresh : Int → Bool)
+flags, the composed handler never yields AttributeError. -/
+theorem pin_request_no_attribute_error (hash_pin : Str → Str) (fresh : Int → Bool)
     (cookie : Option Str) (host_trusted : Bool) (entered : Except String Str) (pin : Option Str)
-    (failed : Int) (s l : Bool) (hent : entered ≠ .error "TypeError") :
+    (failed : Int) (s l : Bool) (hent : entered ≠ .error "AttributeError") :
     (pinRequest hash_pin fresh cookie host_trusted entered pin failed s l).2
-      ≠ .error "TypeError" := by
+      ≠ .error "AttributeError" := by
   unfold pinRequest
   rw [check_pin_trust_eq]
   intro h
-  have := (pin_auth_type_error_iff host_trusted _ entered pin failed s l hent).mp h
+  have := (pin_auth_attribute_error_iff host_trusted _ entered pin failed s l hent).mp h
   obtain ⟨_, ht, _, _, hp⟩ := this
   subst hp
   simp [Dbg.checkPinTrust, trustCode] at ht
